@@ -28,13 +28,13 @@ def install_invariants():
     import crysp.bits as B, crysp.poly as P
 
     def bits_payload_fits(self):
+        # reads the slots directly: no crysp code (property getter) runs inside the monitor, so a failpoint
+        # armed by S5 cannot fire in here and the monitor does not perturb the line count
         S1_COUNT['bits'] += 1
-        try:
-            ok = 0 <= self.ival <= self.mask and self.mask == (1 << self.size) - 1
-        except Exception:
-            ok = False
+        iv = self.ival; sz = self._Bits__sz; mk = self.mask
+        ok = isinstance(iv, int) and isinstance(sz, int) and 0 <= iv <= mk and mk == (1 << sz) - 1
         if not ok and len(S1_FAIL) < 50:
-            S1_FAIL.append(('Bits', 'ival=%r size=%r mask=%r' % (self.ival, self.size, self.mask)))
+            S1_FAIL.append(('Bits', 'ival=%r size=%r mask=%r' % (iv, sz, mk)))
         return True
 
     def poly_coeffs_in_ring(self):
